@@ -188,3 +188,69 @@ Proof.
   - exact (real_layout_value neg ds l rest Hd Hne).
 Qed.
 Print Assumptions dict_real_value.
+
+(* ---------- the offset loop of Font.Write ---------- *)
+From C13 Require Import ModelLayout Proofs_layout Proofs_width.
+Local Open Scope N_scope.
+
+(* For every list of sections whose layout operands refer to existing
+   sections (wf: offsets of sections 0..n, differences offs[a]-offs[b] with
+   b <= a, sizes of Private DICT sections), and whose largest possible total
+   size (all operands five bytes long) fits an int32:
+   the loop "for { encode; newOffs := cumsum(); if same { break } }" stops
+   within 4*(number of layout operands)+2 rounds, no 32-bit sum wraps, the
+   sections as written are the ones encoded with the final offsets, every
+   offset used equals the position of its section (the sum of the sizes of the
+   sections written before it), and every Private DICT size operand equals the
+   size of that Private DICT as written. *)
+Theorem layout_fixpoint_terminates_consistent :
+  forall secs : list section,
+    Forall (wf secs) (all_ops secs) ->
+    (Z.of_N (sumN (smax secs)) < 2147483648)%Z ->
+    exists offs sizes,
+      M_layout_loop secs (4 * length (all_ops secs) + 2) (cumsum (init_sizes secs)) = Ok (offs, sizes) /\
+      sizes = round_sizes secs offs /\
+      (Z.of_N (sumN sizes) < 2147483648)%Z /\
+      (forall j, (j < length secs)%nat -> nth_offs offs j = Z.of_N (sumN (firstn j sizes))) /\
+      (forall j d, nth j secs (SFixed 0) = SDict d -> Forall (wf0 secs) (d_ops d) ->
+         opval secs offs (OSize j) = Z.of_N (nth j sizes 0)).
+Proof. exact layout_main. Qed.
+Print Assumptions layout_fixpoint_terminates_consistent.
+
+(* The size the loop assumes for an INDEX is the length cffIndex.encode writes. *)
+Theorem layout_index_len :
+  forall blobs bs, M_index_encode blobs = Ok bs -> lenN bs = index_len (map lenN blobs).
+Proof. exact index_len_correct. Qed.
+Print Assumptions layout_index_len.
+
+(* ---------- widths ---------- *)
+Local Open Scope Z_scope.
+
+(* With the same default and nominal width on both sides, every width on the
+   16.16 grid (as an integer number of 1/65536 units) whose distance from the
+   nominal width fits the 16.16 range is recovered exactly, whether it is the
+   default width (no operand) or not (integer or 16.16 operand). *)
+Theorem width_recovered :
+  forall def nom w,
+    -2147483648 <= w - nom < 2147483648 ->
+    M_width_decode def nom (M_width_encode def nom w) = w.
+Proof. exact width_recovered_gen. Qed.
+Print Assumptions width_recovered.
+
+(* The repaired writer (default / nominal width truncated to integers before
+   the charstrings are encoded, the same integers stored in the Private DICT)
+   recovers every width however selectWidths chose the two values. *)
+Theorem width_recovered_repaired :
+  forall def nom w,
+    -2147483648 <= w - trunc_grid nom < 2147483648 ->
+    M_width_roundtrip def nom w = w.
+Proof. exact width_roundtrip_fixed. Qed.
+Print Assumptions width_recovered_repaired.
+
+(* The code before the repair (5.A-12): charstrings relative to the unrounded
+   values, Private DICT with the truncated ones. *)
+Theorem width_recovered_refuted :
+  exists def nom w,
+    -2147483648 <= w - nom < 2147483648 /\ M_width_roundtrip_old def nom w <> w.
+Proof. exact width_old_refuted. Qed.
+Print Assumptions width_recovered_refuted.
